@@ -85,12 +85,15 @@ def configs(tier):
 
 def call(entry, sigs, opts, flag, nj, prog):
     from bycycle.group import compute_features_2d
-    from bycycle import BycycleGroup
+    from bycycle import BycycleGroup, Bycycle
     progress = None if prog is None else 'tqdm'
     with sched.tqdm_mode(prog or 'leave'), contextlib.redirect_stdout(io.StringIO()):
         if entry == '2d':
             return compute_features_2d(sigs, FS, FR, compute_features_kwargs=opts, axis=0, return_samples=flag,
                                        n_jobs=nj, progress=progress), None
+        # a user edited a nested setting of ANOTHER, unrelated default object before: must not leak into this one
+        other = Bycycle(thresholds=dict(S.T0))
+        other.find_extrema_kwargs['filter_kwargs']['n_cycles'] = 2
         bg = BycycleGroup(center_extrema='trough', thresholds=dict(S.T0), return_samples=flag)
         bg.fit(sigs, FS, FR, axis=0, n_jobs=nj, progress=progress)
         return bg.df_features, bg
@@ -131,6 +134,7 @@ class Schedules(Space):
         order = list(c['order'])
         sigs = np.array([S.word_signal(w) for w in WORDS[:n]])
         if c['entry'] == 'group':
+            sigs = np.array([S.sensitive_signal(i) for i in range(n)])      # rows whose table depends on the filter length
             opts = {'center_extrema': 'trough', 'threshold_kwargs': dict(S.T0)}
             ref = reference(sigs, opts, flag)
             opts_call = None
@@ -158,6 +162,8 @@ class Schedules(Space):
                     extra['order_not_enforced'] = 1
                 else:
                     extra['order_enforced_in_real_workers'] = 1
+        except sched.HarnessError:
+            raise
         except Exception as e:      # noqa
             import traceback
             return VIOL(dict(sgn, kind='raise', exc=type(e).__name__), 'group analysis raised %s: %s' % (type(e).__name__, str(e)[:150]),
